@@ -554,3 +554,38 @@ def derived_strategy_consts(repo, ci, strat):
         if any(isinstance(x, (ast.IfExp, ast.Compare, ast.BoolOp)) for x in ast.walk(v)) and not any(isinstance(x, (ast.Lambda, ast.Call)) and not (isinstance(x, ast.Call) and isinstance(x.func, ast.Name) and x.func.id in ('len', 'int', 'bool', 'isinstance')) for x in ast.walk(v)):
             out['self.%s' % a] = v
     return out
+
+
+
+def loop_overwrites(func):
+    """``v = []`` (or another empty display) before a loop, ``v = <call>`` -- a plain assignment
+    whose value does not mention v -- in the loop body, v read after the loop: what every iteration
+    but the last produced is thrown away.  -> [(name, loop, assignment)]"""
+    out = []
+
+    def scan(stmts):
+        for i, st in enumerate(stmts):
+            if isinstance(st, (ast.For, ast.While)):
+                inits = {}
+                for prev in stmts[:i]:
+                    if isinstance(prev, ast.Assign) and len(prev.targets) == 1 and isinstance(prev.targets[0], ast.Name) \
+                            and ((isinstance(prev.value, (ast.List, ast.Tuple, ast.Dict, ast.Set)) and not getattr(prev.value, 'elts', getattr(prev.value, 'keys', None))) or
+                                 (isinstance(prev.value, ast.Call) and isinstance(prev.value.func, ast.Name) and prev.value.func.id in ('list', 'dict', 'set', 'tuple') and not prev.value.args)):
+                        inits[prev.targets[0].id] = prev
+                for a in ast.walk(st):
+                    if isinstance(a, ast.Assign) and len(a.targets) == 1 and isinstance(a.targets[0], ast.Name) and a.targets[0].id in inits and isinstance(a.value, ast.Call) \
+                            and not any(isinstance(x, ast.Name) and x.id == a.targets[0].id for x in ast.walk(a.value)):
+                        v = a.targets[0].id
+                        accum = any((isinstance(x, ast.AugAssign) and isinstance(x.target, ast.Name) and x.target.id == v) or
+                                    (isinstance(x, ast.Call) and isinstance(x.func, ast.Attribute) and isinstance(x.func.value, ast.Name) and x.func.value.id == v and x.func.attr in ('append', 'extend', 'update', 'add'))
+                                    for x in ast.walk(st))
+                        used_after = any(isinstance(x, ast.Name) and x.id == v and isinstance(x.ctx, ast.Load) for nxt in stmts[i + 1:] for x in ast.walk(nxt))
+                        used_in_loop_after = False
+                        if not accum and used_after and not used_in_loop_after:
+                            out.append((v, st, a))
+            for fld in ('body', 'orelse', 'finalbody'):
+                sub = getattr(st, fld, None)
+                if isinstance(sub, list) and sub and isinstance(sub[0], ast.stmt):
+                    scan(sub)
+    scan(func.body)
+    return out
